@@ -298,18 +298,26 @@ headers, kinds of statements and the names they bind) they had when the model wa
 loop, early exit or rebinding has been added that the model does not describe -/
 theorem modelled_functions_have_the_transcribed_shape :
     MlVerif.Gen.C11.shapeTransformIall =
-      "if(bias){XP[]=;pos=}else{pos=};n=;for(d in range(0, degree)){if(d == 0){XP[]=;index=;posAdd=;call append}else{new_index=;end=;for(i in range(0, n)){a=;call append;new_pos=;call multiply;pos=};call append;index=}};return" ∧
+      "sig(degree, bias, XP, X, multiply, final)|if(bias){XP[]=;pos=}else{pos=};n=;for(d in range(0, degree)){if(d == 0){XP[]=;index=;posAdd=;call append}else{new_index=;end=;for(i in range(0, n)){a=;call append;new_pos=;call multiply;pos=};call append;index=}};return" ∧
     MlVerif.Gen.C11.shapeTransformIonly =
-      "if(bias){XP[]=;pos=}else{pos=};n=;for(d in range(0, degree)){if(d == 0){XP[]=;index=;posAdd=;call append}else{new_index=;end=;for(i in range(0, n)){a=;call append;dec=;new_pos=;if(new_pos <= pos){break};call multiply;pos=};call append;index=}};return" ∧
+      "sig(degree, bias, XP, X, multiply, final)|if(bias){XP[]=;pos=}else{pos=};n=;for(d in range(0, degree)){if(d == 0){XP[]=;index=;posAdd=;call append}else{new_index=;end=;for(i in range(0, n)){a=;call append;dec=;new_pos=;if(new_pos <= pos){break};call multiply;pos=};call append;index=}};return" ∧
     MlVerif.Gen.C11.shapeCombinationsPoly =
-      "comb=;start=;return" ∧
+      "sig(n_features, degree, interaction_only, include_bias)|comb=;start=;return" ∧
     MlVerif.Gen.C11.shapeFitPoly =
-      "call check_array;return" ∧
+      "sig(self, X, y=None)|call check_array;return" ∧
     MlVerif.Gen.C11.shapeTransformPoly =
-      "if(sparse.isspmatrix(X)){raise};XP=;def multiply{return};def final{return};if(self.poly_interaction_only){return};return" ∧
+      "sig(self, X)|if(sparse.isspmatrix(X)){raise};XP=;def multiply{return};def final{return};if(self.poly_interaction_only){return};return" ∧
     MlVerif.Gen.C11.shapeFeatureNamesPoly =
-      "if(input_features is None){input_features=}else{if(len(input_features) != self.n_input_features_){raise}};names=;n=;interaction_only=;for(d in range(0, self.poly_degree)){if(d == 0){pos=;call extend;index=;call append}else{new_index=;end=;for(i in range(0, n)){a=;call append;start=;call extend};call append;index=}};def process_name{scol=;res=;for(c in sorted(scol)){if(not res or res[-1][0] != c){call append}else{res[]=}};return};names=;return" :=
-  ⟨rfl, rfl, rfl, rfl, rfl, rfl⟩
+      "sig(self, input_features=None)|if(input_features is None){input_features=}else{if(len(input_features) != self.n_input_features_){raise}};names=;n=;interaction_only=;for(d in range(0, self.poly_degree)){if(d == 0){pos=;call extend;index=;call append}else{new_index=;end=;for(i in range(0, n)){a=;call append;start=;call extend};call append;index=}};def process_name{scol=;res=;for(c in sorted(scol)){if(not res or res[-1][0] != c){call append}else{res[]=}};return};names=;return" ∧
+    MlVerif.Gen.C11.shapeFit =
+      "sig(self, X, y=None)|self.n_input_features_=;self.n_output_features_=;if(self.kind == 'poly'){return}else{if(self.kind == 'poly-slow'){return}};raise" ∧
+    MlVerif.Gen.C11.shapeTransform =
+      "sig(self, X)|n_features=;if(n_features != self.n_input_features_){raise};if(self.kind == 'poly'){return};if(self.kind == 'poly-slow'){return};raise" ∧
+    MlVerif.Gen.C11.shapeGetFeatureNamesOut =
+      "sig(self, input_features=None)|if(self.kind == 'poly'){return};if(self.kind == 'poly-slow'){return};raise" ∧
+    MlVerif.Gen.C11.shapeTransformPolySlow =
+      "sig(self, X)|if sparse.isspmatrix(X): raise NotImplementedError('Not implemented for sparse matrices.') ; comb = _combinations_poly(X.shape[1], self.poly_degree, self.poly_interaction_only, include_bias=self.poly_include_bias) ; order = 'C' ; XP = numpy.empty((X.shape[0], self.n_output_features_), dtype=X.dtype, order=order) ; for i, comb in enumerate(comb): XP[:, i] = X[:, comb].prod(1) ; return XP" :=
+  ⟨rfl, rfl, rfl, rfl, rfl, rfl, rfl, rfl, rfl, rfl⟩
 
 /-! ### non-vacuity: concrete instances -/
 example : transformIall monoOps 2 3 true
